@@ -496,31 +496,38 @@ def post(tier, base_seed):
     """Re-execute a batch with unmodified classes in a fresh interpreter under another PYTHONHASHSEED."""
     from .. import campaign
 
-    n = 300 if tier == "quick" else 3000
+    n = 600 if tier == "quick" else 3000
     here = plain_digests(base_seed, n, tier)
     ranked = []
     for i in range(n):
         spec = campaign.make_spec(sys.modules[__name__], base_seed, i, tier)
         tr = one_run(spec, spec.get("ranks"))
         ranked.append(D.digest(outcome_dump(tr)))
-    envv = dict(os.environ)
-    envv["PYTHONHASHSEED"] = "4242"
     code = ("import sys, json; sys.path.insert(0, %r)\nfrom dst import env\nenv.setup(%r)\nfrom dst.props import c09\n"
             "print('D=' + json.dumps(c09.plain_digests(%d, %d, %r)))\n" % (env.VERIF, env.REPO, base_seed, n, tier))
-    p = subprocess.run([sys.executable, "-c", code], env=envv, capture_output=True, text=True, timeout=3000)
     there = None
-    for line in p.stdout.splitlines():
-        if line.startswith("D="):
-            there = json.loads(line[2:])
-    if there is None:
-        raise RuntimeError("fresh-interpreter child failed: %s %s" % (p.stdout[-1000:], p.stderr[-2000:]))
+    for hs in ("4242", "7"):
+        # (two children: an order that depends on string hashes may coincide under one hash seed)
+        envv = dict(os.environ)
+        envv["PYTHONHASHSEED"] = hs
+        p = subprocess.run([sys.executable, "-c", code], env=envv, capture_output=True, text=True, timeout=3000)
+        got = None
+        for line in p.stdout.splitlines():
+            if line.startswith("D="):
+                got = json.loads(line[2:])
+        if got is None:
+            raise RuntimeError("fresh-interpreter child failed: %s %s" % (p.stdout[-1000:], p.stderr[-2000:]))
+        if there is None:
+            there = got
+        else:
+            there = [a if a != here[i] else b for i, (a, b) in enumerate(zip(there, got))]  # keep a differing digest if any child differs
     viol = []
     for i in range(n):
         if here[i] != there[i] or here[i] != ranked[i]:
             spec = campaign.make_spec(sys.modules[__name__], base_seed, i, tier)
             spec["mode"] = "plain"
             spec["garbage"] = [64]
-            what = "fresh interpreter (PYTHONHASHSEED=4242)" if here[i] != there[i] else "ranked vs unmodified classes"
+            what = "fresh interpreter (PYTHONHASHSEED=4242 / 7)" if here[i] != there[i] else "ranked vs unmodified classes"
             viol.append((i, spec, {"clause": "fresh", "key": "C09.address_dependent.kinds_" + edge_tags(spec["model"]),
                                    "msg": "run %d: %s gives a different result digest (%s / %s / %s)" % (i, what, ranked[i], here[i], there[i]),
                                    "step": None}))
